@@ -807,6 +807,10 @@ def _report(run: Any, verdicts: Verdicts, case: Dict[str, Any], nontrivial: Opti
     if nontrivial is None:
         nontrivial = _nontrivial(case)
     for clause, (ok, detail) in verdicts.items():
+        if clause.startswith("harness:"):
+            if not ok:
+                run.error(f"{clause}: {detail} ({case})")
+            continue
         if clause == ROUNDTRIP:
             known = roundtrip_input_class(case)
             if known:
@@ -893,7 +897,7 @@ def _corrupt(texts: Sequence[str], run: Any) -> None:
 
 
 def _run_files(shard: Dict[str, Any], run: Any) -> None:
-    rng = random.Random((run.seed + 1) * 7919 + shard["index"])
+    rng = run.rng
     made = 0
     attempts = 0
     while made < shard["count"] and attempts < shard["count"] * 30 and not run.out_of_time():
